@@ -16,6 +16,7 @@
 -/
 import JsonC.Lemmas.TokenerDoc10
 import JsonC.Props.C04
+import JsonC.Lemmas.TokenerLibc
 namespace JsonC.Props.C01
 open JsonC JsonC.Tokener JsonC.Rfc8259
 
@@ -99,6 +100,20 @@ example : (Doc.num ⟨false, [1,8,4,4,6,7,4,4,0,7,3,7,0,9,5,5,1,6,1,6], none, no
   rfl
 example : (Doc.num ⟨true, [9,2,2,3,3,7,2,0,3,6,8,5,4,7,7,5,8,0,9], none, none⟩).denote = .int true (-9223372036854775808) := by
   rfl
+
+/-- the libc hypothesis is satisfiable: the reference conversions the driver runs (`refLibc`: exact
+strtoll/strtoull with ERANGE saturation, `Dbl.strtod` = exact round-to-nearest-even) meet it; the
+correspondence run compares these reference conversions with glibc on every generated number -/
+theorem libc_hypothesis_holds_for_reference : LibcOk refLibc := refLibc_ok
+
+/-- `parse_valid` with the reference conversions plugged in: no hypothesis left but the document's -/
+theorem parse_valid_reference (depth : Int) (flags : Nat) (hf : flags = 0 ∨ flags = 1)
+    (t : Tok) (hnew : Tokener.new depth flags = some t) (x : Text)
+    (hok : x.doc.ok = true) (hknf : x.doc.keysNulFree = true) (hfit : flags = 1 → x.doc.intsFit = true)
+    (hdepth : x.doc.nest + 1 ≤ depth.toNat) :
+    let f := parseEx refLibc t (x.text ++ [0])
+    f.err = .success ∧ f.value = some x.doc.denote ∧ f.offset = x.text.length ∧ f.stuck = false ∧ f.fault = none :=
+  parse_valid refLibc refLibc_ok depth flags hf t hnew x hok hknf hfit hdepth
 
 /-! ### non-vacuity: the hypotheses of `parse_valid` are met by a concrete nested document, and the
 reference libc satisfies nothing we cannot check — `LibcOk` is an assumption about glibc, stated as
